@@ -52,6 +52,7 @@ import attrs
 
 from ..utils import ensure_trailing_newline
 from .base import BackendStatus, TrackingBackend
+from .exceptions import BackendError
 from .utils import call, has_exe
 
 logger = logging.getLogger(__name__)
@@ -205,7 +206,11 @@ class SlurmOps:
         if dependencies:
             args.append("--dependency=afterok:{}".format(":".join(dependencies)))
         # With --parsable sbatch prints "jobid[;clustername]".
-        return call("sbatch", *args, input=script).strip().split(";")[0]
+        stdout = call("sbatch", *args, input=script)
+        job_id = stdout.strip().split(";")[0]
+        if not job_id.isdigit():
+            raise BackendError(f"Unexpected output from sbatch: {stdout!r}")
+        return job_id
 
     def get_job_states_from_squeue(self, tracked_jobs):
         logger.debug("Loading job states from squeue")
